@@ -230,12 +230,20 @@ func runC07(seed uint64, tier, dir, replay string) error {
 	}
 	var direct []map[string]interface{}
 	outcomes := map[string]int{}
+	modelToo := true
+	goOnly := 0
 	add := func(kind, ik string, in []byte) {
 		r := pool.Run("parse", in)
 		oc := []string{"message", "error", "panic", "hang", "memory", "neither"}[r.outcome]
 		outcomes[oc]++
 		js := map[string]interface{}{"kind": "parse:" + kind, "input_kind": ik, "input": hexs(in), "outcome": oc, "detail": r.extra}
-		idx := o.Add(fmt.Sprintf("(Par %s %d %s %d 0 0)", packBytes(in), r.outcome, packBytes(nil), max0(r.lenv)), js, "parse:"+kind, fmt.Sprintf("%s/%s/%d", ik, oc, len(in)/32))
+		term := fmt.Sprintf("(Par %s %d %s %d 0 0)", packBytes(in), r.outcome, packBytes(nil), max0(r.lenv))
+		if !modelToo {
+			term = fmt.Sprintf("(GoOnly %d)", r.outcome)
+			js["model_evaluated"] = false
+			goOnly++
+		}
+		idx := o.Add(term, js, "parse:"+kind, fmt.Sprintf("%s/%s/%d", ik, oc, len(in)/32))
 		if r.outcome >= 2 && len(direct) < 40 {
 			direct = append(direct, map[string]interface{}{"what": fmt.Sprintf("Parse: %s on %d bytes of a %s frame (%s)", oc, len(in), kind, r.extra), "index": idx, "case": js})
 		}
@@ -291,11 +299,42 @@ func runC07(seed uint64, tier, dir, replay string) error {
 			add(kind, "mutated", g.mutate(b))
 		}
 	}
+	// every 16-bit position of whole frames set to 0 and to 0xffff
+	nsweep, maxoff := 24, 260
+	if tier == "thorough" {
+		nsweep, maxoff = 400, 2000
+	}
+	for i := 0; i < nsweep; i++ {
+		m, kind := g.anyMessage()
+		b, ok := marshalSafe(m)
+		if !ok || len(b) < 8 {
+			continue
+		}
+		for _, c := range wordSweep(b, 0, maxoff, rng) {
+			add(kind, "word-zeroed", c)
+		}
+		for _, c := range wordSweep(b, 0xffff, maxoff/2, rng) {
+			add(kind, "word-maxed", c)
+		}
+	}
+	// list decoders at the 64 KiB limit; extreme IPv6 extension-header lengths in packet-ins
+	// (the model's loops re-slice from the start of the frame, which costs it a minute per
+	// 64 KiB frame: at the quick tier only the description-statistics frames go through the
+	// model, the others are judged on the implementation's outcome alone)
+	for i, nb := range giantFrames(tier == "thorough") {
+		modelToo = tier == "thorough" || i < 1
+		add(nb.kind, "giant", nb.b)
+	}
+	modelToo = true
+	o.Meta["implementation_only_cases"] = goOnly
+	for _, nb := range v6Extremes(tier == "thorough") {
+		add(nb.kind, "v6-extreme", packetIn(nb.b))
+	}
 	if len(direct) > 0 {
 		o.Meta["direct_violations"] = direct
 	}
 	o.Meta["outcomes"] = outcomes
-	o.Meta["rule"] = "the parser entry point on: all 256 message-type bytes on 8- and 64-byte frames; inputs of 0..7 bytes; for random valid frames of every kind (see C05) the frame itself, its truncation at every offset (sampled above 160 bytes), 16-bit positions in the first 96 bytes set to 0 / 1 / 0xffff / +-1 / +-8 / a random byte, and structure-blind mutations; each parse runs in a worker subprocess under a 3 s wall-clock limit and a 1 GiB heap limit; distinct by kind x input kind x outcome x size bucket"
+	o.Meta["rule"] = "the parser entry point on: all 256 message-type bytes on 8- and 64-byte frames; inputs of 0..7 bytes; for random valid frames of every kind (see C05) the frame itself, its truncation at every offset (sampled above 160 bytes), 16-bit positions in the first 96 bytes set to 0 / 1 / 0xffff / +-1 / +-8 / a random byte, and structure-blind mutations; every 16-bit position at an even offset of whole frames set to 0 and to 0xffff (sampled above 260 positions); frames at the 64 KiB limit for every list decoder (multipart records of each type with the length field at 65535 and buffers of 65535 and 65600 bytes, instructions, actions, match fields, buckets, hello elements, ports, tlv maps, a nested bundle); packet-ins whose IPv6 extension headers carry Hdr Ext Len 0/1/31/254/255 on packets long enough to hold them; each parse runs in a worker subprocess under a 3 s wall-clock limit and a 1 GiB heap limit; distinct by kind x input kind x outcome x size bucket"
 	return o.Close()
 }
 
